@@ -32,6 +32,8 @@ pub enum JsVal {
     Cyclic,
     /// `a = [1]; a.push(a)`
     CyclicArr,
+    /// an empty slot of a sparse array (`[1, , 3]`): only ever an element of `Arr`; reads as undefined
+    Hole,
 }
 
 pub fn num_value(s: &str) -> f64 {
@@ -63,6 +65,7 @@ impl JsVal {
     pub fn to_tagged(&self) -> Value {
         match self {
             JsVal::Undef => json!({"t":"u"}),
+            JsVal::Hole => json!({"t":"hole"}),
             JsVal::Null => json!({"t":"n"}),
             JsVal::Bool(b) => json!({"t":"b","v":b}),
             JsVal::Num(s) => match s.as_str() {
@@ -129,6 +132,7 @@ impl JsVal {
             }
             "fn" => JsVal::Func,
             "sym" => JsVal::Sym,
+            "hole" => JsVal::Hole,
             _ => return None,
         })
     }
@@ -191,6 +195,7 @@ impl JsVal {
     pub fn class(&self) -> &'static str {
         match self {
             JsVal::Undef => "undefined",
+            JsVal::Hole => "hole",
             JsVal::Null => "null",
             JsVal::Bool(_) => "boolean",
             JsVal::Num(_) => "number",
@@ -209,6 +214,14 @@ impl JsVal {
             JsVal::Cyclic | JsVal::CyclicArr => "cyclic",
         }
     }
+    pub fn has_hole(&self) -> bool {
+        match self {
+            JsVal::Hole => true,
+            JsVal::Arr(v) | JsVal::Set(v) => v.iter().any(|x| x.has_hole()),
+            JsVal::Obj(kv, _) => kv.iter().any(|(_, x)| x.has_hole()),
+            _ => false,
+        }
+    }
     pub fn has_hostile_key(&self) -> bool {
         match self {
             JsVal::Obj(kv, _) => kv.iter().any(|(k, v)| HOSTILE.contains(&k.as_str()) || v.has_hostile_key() || matches!(v, JsVal::Str(s) if HOSTILE.contains(&s.as_str()))),
@@ -219,7 +232,7 @@ impl JsVal {
     }
     pub fn has_non_json_leaf(&self) -> bool {
         match self {
-            JsVal::Undef | JsVal::BigInt(_) | JsVal::Date(_) | JsVal::Map(_) | JsVal::Set(_) | JsVal::TypedArr(_, _) | JsVal::Func | JsVal::Sym | JsVal::Cyclic | JsVal::CyclicArr => true,
+            JsVal::Undef | JsVal::Hole | JsVal::BigInt(_) | JsVal::Date(_) | JsVal::Map(_) | JsVal::Set(_) | JsVal::TypedArr(_, _) | JsVal::Func | JsVal::Sym | JsVal::Cyclic | JsVal::CyclicArr => true,
             JsVal::Num(s) => !num_value(s).is_finite(),
             JsVal::Arr(v) => v.iter().any(|x| x.has_non_json_leaf()),
             JsVal::Obj(kv, p) => *p != Proto::Plain || kv.iter().any(|(_, x)| x.has_non_json_leaf()),
@@ -555,4 +568,43 @@ pub fn inject_key(v: &JsVal, s: &mut Src, key: &str) -> JsVal {
     }
     let mut target = s.below(n) as isize;
     go(v, &mut target, key)
+}
+
+/// One element of some array inside `v` replaced by an empty slot (`[1, , 3]`); None when `v` holds no non-empty array.
+pub fn punch_hole(v: &JsVal, s: &mut crate::src::Src) -> Option<JsVal> {
+    fn arrays(v: &JsVal) -> usize {
+        match v {
+            JsVal::Arr(xs) => (if xs.is_empty() { 0 } else { 1 }) + xs.iter().map(arrays).sum::<usize>(),
+            JsVal::Obj(kv, _) => kv.iter().map(|(_, x)| arrays(x)).sum(),
+            _ => 0,
+        }
+    }
+    fn apply(v: &JsVal, target: &mut isize, slot: usize) -> JsVal {
+        match v {
+            JsVal::Arr(xs) => {
+                let mut out = vec![];
+                let here = !xs.is_empty() && {
+                    *target -= 1;
+                    *target == -1
+                };
+                for (i, x) in xs.iter().enumerate() {
+                    if here && i == slot % xs.len() {
+                        out.push(JsVal::Hole);
+                    } else {
+                        out.push(apply(x, target, slot));
+                    }
+                }
+                JsVal::Arr(out)
+            }
+            JsVal::Obj(kv, p) => JsVal::Obj(kv.iter().map(|(k, x)| (k.clone(), apply(x, target, slot))).collect(), p.clone()),
+            other => other.clone(),
+        }
+    }
+    let n = arrays(v);
+    if n == 0 {
+        return None;
+    }
+    let mut target = s.below(n) as isize;
+    let slot = s.below(8);
+    Some(apply(v, &mut target, slot))
 }
